@@ -193,6 +193,33 @@ fn invariant(z: &Zoned, zone: &Zone, step: &str) -> CaseResult {
     ensure!(z.time_zone() == &zone.tz, "zone-tracking", "{step}: the value's time zone is not the one the history expects ({})", zone.label);
     // accessors delegate consistently
     ensure!(z.date() == z.datetime().date() && z.time() == z.datetime().time() && z.year() == z.datetime().year() && z.subsec_nanosecond() == z.datetime().subsec_nanosecond(), "accessors", "{step}: accessors disagree with datetime()");
+    // every field accessor of the Zoned itself, against the reference civil reading
+    {
+        use crate::refmodel::refcal as rc;
+        let (y, m, d, tod) = rz::civil_parts(loc);
+        let sub = (tod % NS_PER_SEC) as i64;
+        let dn = rc::to_days(y, m, d);
+        let got = (
+            (z.year() as i64, z.month() as i64, z.day() as i64),
+            (z.hour() as i64, z.minute() as i64, z.second() as i64),
+            (z.millisecond() as i64, z.microsecond() as i64, z.nanosecond() as i64, z.subsec_nanosecond() as i64),
+            (z.weekday().to_monday_zero_offset() as i64, z.day_of_year() as i64, z.days_in_month() as i64, z.days_in_year() as i64, z.in_leap_year()),
+        );
+        let want = (
+            (y, m, d),
+            ((tod / (3600 * NS_PER_SEC)) as i64, (tod / (60 * NS_PER_SEC) % 60) as i64, (tod / NS_PER_SEC % 60) as i64),
+            (sub / 1_000_000, sub / 1000 % 1000, sub % 1000, sub),
+            (rc::weekday_mon0(dn), rc::day_of_year(y, m, d), rc::days_in_month(y, m), if rc::is_leap(y) { 366 } else { 365 }, rc::is_leap(y)),
+        );
+        ensure!(got == want, "zoned-field-accessors", "{step}: [{}] {z}: field accessors read {got:?}, the instant shifted by the offset has {want:?}", zone.label);
+        let (ey, era) = z.era_year();
+        ensure!(if y >= 1 { ey as i64 == y && era == jiff::civil::Era::CE } else { ey as i64 == 1 - y && era == jiff::civil::Era::BCE }, "zoned-field-accessors", "{step}: {z}: era_year() = {:?}", z.era_year());
+        let iso = z.clone().iso_week_date();
+        let (iy, iw, iwd) = rc::iso_week(dn);
+        ensure!((iso.year() as i64, iso.week() as i64, iso.weekday().to_monday_zero_offset() as i64) == (iy, iw, iwd), "zoned-field-accessors", "{step}: {z}: iso_week_date() = {iso:?}");
+        let want_dnl = if rc::is_leap(y) && m == 2 && d == 29 { None } else if rc::is_leap(y) && m > 2 { Some(rc::day_of_year(y, m, d) - 1) } else { Some(rc::day_of_year(y, m, d)) };
+        ensure!(z.day_of_year_no_leap().map(i64::from) == want_dnl, "zoned-field-accessors", "{step}: {z}: day_of_year_no_leap() = {:?}", z.day_of_year_no_leap());
+    }
     Ok(())
 }
 
@@ -208,6 +235,13 @@ fn test_history(hist: &History, cx: &mut Cx) -> CaseResult {
     let (mut zone, ns) = resolve_probe(zs, &hist.start);
     let mut z: Zoned = crate::props::c06::mk_zoned(&zone, ns);
     invariant(&z, &zone, "start")?;
+    // the Default value is a zoned datetime like any other (the epoch in UTC)
+    {
+        let dflt = Zoned::default();
+        let utc = zones::by_label("utc").unwrap();
+        ensure!(dflt.timestamp().as_nanosecond() == 0, "default-not-epoch", "Zoned::default() = {dflt}");
+        invariant(&dflt, &utc, "Zoned::default()")?;
+    }
     let mut ok_ops = 0usize;
     let mut window_hits = 0usize;
     let mut direct_assembly = 0usize;
